@@ -54,7 +54,8 @@ def check(run: Run, prog: Program, model: Model, tier: str) -> None:
         "widening; W2 dict widening on token tables (required key lost or made optional, relaxed marker introduced, "
         "member of an unspecified key replaced); W3 list widening (a position left unpinned while the length props "
         "are dropped); W4 any widening (an alternative not derived by substitution from an original one). The set "
-        "inclusion on concrete values is not decided.")
+        "inclusion on concrete values is not decided."
+        " An optional key dropped from a relaxed table and an exact element list that a carried max_len re-opens in the validator are widenings too.")
     run.rule_text = "obligations per (visit method, prop-set/shape) and mechanism; non-trivial = premises derived on interpreter paths"
     sub = model.visitors["Substitutor"]
     # ---------------------------------------------------------------- W1 scalars
